@@ -142,7 +142,12 @@ pub fn run(ctx: &mut Ctx) {
         let other = Universe::new(&mut rng, 2); // neighbouring document in the same redb store
         let ns = uni.ns.id();
         let max_n = if ctx.is_quick() { 24 } else { 56 };
-        let na = rng.range(0, max_n);
+        // One case in four gives the redb replicas a previous life: the document held other entries,
+        // opened a session, was removed and created again before the state under test is loaded. The
+        // ordered-map reference has no such past; nothing of it may show (half of these cases test
+        // the replica that is empty after re-creation).
+        let previous_life = rng.chance(1, 4);
+        let na = if previous_life && rng.chance(1, 2) { 0 } else { rng.range(0, max_n) };
         let nb = rng.range(0, max_n);
         let set_a = entry_set(&uni, &mut rng, na);
         let mut set_b = entry_set(&uni, &mut rng, nb);
@@ -188,6 +193,18 @@ pub fn run(ctx: &mut Ctx) {
                     import_write(s, &uni.ns);
                     import_write(s, &other.ns);
                     load(s, other.ns.id(), &noise);
+                }
+                if previous_life {
+                    load(&mut a, ns, &set_b);
+                    if let Ok(mut r) = a.open_replica(&ns) {
+                        let _ = r.sync_initial_message();
+                    }
+                    a.close_replica(ns);
+                    let removed = a.remove_replica(&ns).is_ok();
+                    import_write(&mut a, &uni.ns);
+                    if removed {
+                        ctx.count("replicas_with_a_previous_life", 1);
+                    }
                 }
                 load(&mut a, ns, &set_a);
                 load(&mut b, ns, &set_b);
